@@ -55,8 +55,11 @@ def _map_new(eng, m, args, fr, dty):
 @model(r'^' + MAP + r'::<.*>::(get|get_mut|contains_key|contains)::<.*>$')
 def _map_get(eng, m, args, fr, dty):
     mp = the_map(eng, args[0], fr)
-    i = lookup(eng, mp, args[1], fr)
     op = m.group(1)
+    k0 = eng.deref(args[1], fr)
+    if op in ('contains_key', 'contains') and isinstance(k0, Int) and mp.entries and all(isinstance(kk, Int) for kk, _ in mp.entries):
+        return Bool(z3.Or(*[kk.e == k0.e for kk, _ in mp.entries]))
+    i = lookup(eng, mp, args[1], fr)
     if op in ('contains_key', 'contains'):
         return mkbool(i is not None)
     if i is None:
